@@ -407,7 +407,9 @@ func c05Run(c *core.Ctx, idx int) {
 		return
 	}
 	A, B := build(base), build(base)
-	desc := func(site string) map[string]any { return map[string]any{"tree": base, "mutation": site, "condition_root": condRoot} }
+	desc := func(site string) map[string]any {
+		return map[string]any{"tree": base, "mutation": site, "condition_root": condRoot}
+	}
 	for _, pair := range [][2]inst{{A, B}, {B, A}} {
 		err, pan, msg, site := eq(pair[0], pair[1])
 		if pan {
